@@ -1444,7 +1444,23 @@ class GroupBy:
             arrays = map(np.array, results_per_value)
             if transform:
                 self._unify_group_key_chunks(keep_chunked=False)
-                arrays = [arr[self.group_ikey] for arr in arrays]
+                # the results follow the sorted labels and cover only the groups with rows:
+                # put them back in code order, null for empty groups and the null key
+                codes_in_result_order = np.arange(self.ngroups)[self._labels_argsort]
+                if mask is not None:
+                    has_rows = np.array([len(arr) > 0 for arr in array_splits[0]])
+                else:
+                    has_rows = group_counts > 0
+                codes_in_result_order = codes_in_result_order[has_rows]
+                results_by_code = []
+                for arr in arrays:
+                    if arr.dtype.kind in "mM":
+                        by_code = np.full(self.ngroups + 1, "NaT", dtype=arr.dtype)
+                    else:
+                        by_code = np.full(self.ngroups + 1, np.nan)
+                    by_code[codes_in_result_order] = arr
+                    results_by_code.append(by_code)
+                arrays = [arr[self.group_ikey] for arr in results_by_code]
                 index = (
                     common_index
                     if common_index is not None
